@@ -467,6 +467,45 @@ def xq_logged(c):
     return out
 
 
+class _ExecView:
+    """context in which the contract clauses of an executor method are read for the operation
+    `name(*args, created_files)`: same states as `c`, `self` = the executor, parameters taken from
+    the JSON argument list"""
+    def __init__(self, c, ex, args, cf, st='old'):
+        self.self = ex
+        rd = getattr(c, st)
+        g = c.gold if st == 'old' else c.gnew
+        self.old, self.new, self.gold, self.gnew = rd, rd, g, g
+        a0 = PyVs.hd(PyV.litems(args))
+        self.filename = PyV.ps(a0)
+        self.created_files = cf
+
+
+def exec_dispatch(c, ex, name, args, cf, res, st='old'):
+    """what `getattr(self, name)(*(args + [created_files]))` returns, by the (verified) contracts
+    of the executor's query methods: the Boolean queries are exactly the virtual view of C04, a
+    size is returned only for paths of the view.  TRUSTED step: that the dispatch calls the method
+    called `name` with these arguments (one line of Python; pinned by the context hash)."""
+    from contracts import executor as EXC_
+    v = _ExecView(c, ex, args, cf, st)
+    wellformed = And(PyV.is_PList(args), PyVs.is_cons(PyV.litems(args)),
+                     PyV.is_PStr(PyVs.hd(PyV.litems(args))))
+    p = v.filename
+
+    def case(opname, body):
+        return Implies(And(name == str_lit(opname), wellformed), body)
+    return [
+        ('dispatch-is_file-is-the-virtual-view',
+         case('is_file', res == PyV.PBool(EXC_.vfile(v, p, cf))), ['C04', 'C05', 'C01']),
+        ('dispatch-is_dir-is-the-virtual-view',
+         case('is_dir', res == PyV.PBool(EXC_.vdir(v, p, cf))), ['C04', 'C05', 'C01']),
+        ('dispatch-exists-is-the-virtual-view',
+         case('exists', res == PyV.PBool(EXC_.vexists(v, p, cf))), ['C04', 'C05', 'C01']),
+        ('dispatch-get_size-only-for-paths-of-the-view',
+         case('get_size', And(PyV.is_PInt(res), EXC_.vexists(v, p, cf))), ['C04', 'C05']),
+    ]
+
+
 # the executor's dispatch: frame + result type only here; the per-operation semantics are the
 # contracts in contracts/executor.py (C04/C05/C13)
 CONTRACTS.append(Contract(
@@ -475,7 +514,8 @@ CONTRACTS.append(Contract(
             'created_files': OPT(OBJ('CreatedFiles'))},
     returns=PYV,
     ensures=lambda c: no_effect(c) + [('result-is-json-like', J.wf(c.res)),
-                                      ('result-comparable', J.eqdom(c.res))] + xq_logged(c),
+                                      ('result-comparable', J.eqdom(c.res))] + xq_logged(c)
+    + exec_dispatch(c, c.self, c.a('name'), c.a('args'), c.a('created_files'), c.res),
     raises=[ExcSpec('OSError', ensures=lambda c: no_effect(c) + xq_logged(c)),
             ExcSpec('ValueError', when=lambda c: Not(Or([c.name == str_lit(n) for n in OPS])),
                     ensures=no_effect)],
@@ -490,7 +530,12 @@ CONTRACTS.append(Contract(
     params={'self': FB, 'operation': OBJ('SimpleOperation')}, returns=PYV, ret_fresh=True,
     requires=lambda c: wf_builder(c) + [
         ('fresh-record', Not(c.old('Operation.is_finished', c.operation)))],
-    ensures=lambda c: no_effect(c) + append_only(c, except_obj=c.operation),
+    ensures=lambda c: no_effect(c) + append_only(c, except_obj=c.operation)
+    # C04 at the level of the builder: the value handed back is the executor's answer for the
+    # recorded name and arguments, with no replay overlay
+    + exec_dispatch(c, c.old('FileBuilder._simple_operation_executor', c.self),
+                    c.old('SimpleOperation.name', c.operation),
+                    c.old('Operation.args', c.operation), None, c.res),
     raises=[ExcSpec('RuntimeError', when=lambda c: finished(c), ensures=no_effect,
                     modifies=NOTHING),
             ExcSpec('OSError', when=lambda c: Not(finished(c)), exact=False,
@@ -540,8 +585,24 @@ def query_exit(eng, st, ctrl, v):
     if ctrl not in ('ret', 'ok'):
         return []
     n0, n1 = eng.gread(eng.entry_state, 'exec_n'), eng.gread(st, 'exec_n')
-    return [('returns-only-after-recording-exactly-one-operation', n1 == n0 + 1,
-             ['C13', 'C04', 'C05', 'C01'])]
+    out = [('returns-only-after-recording-exactly-one-operation', n1 == n0 + 1,
+            ['C13', 'C04', 'C05', 'C01'])]
+    name = eng.cur.node.name
+    if name in ('is_file', 'is_dir', 'exists'):
+        # C04 at the API: the answer is the virtual view at the sanitized path
+        from pyvc.engine import Ctx
+        from contracts import executor as EXC_
+        c = Ctx(eng, eng.entry_state, st, eng.cur_args, entry=eng.entry_state)
+        f0 = J.base_of(eng.intr.to_pyv(eng.cur_args['filename']))
+        ex = c.old('FileBuilder._simple_operation_executor', c.self)
+        view = _ExecView(c, ex, PyV.PList(PyVs.cons(PyV.PStr(abspath(PyV.ps(f0))), PyVs.nil)),
+                         None)
+        want = {'is_file': EXC_.vfile, 'is_dir': EXC_.vdir, 'exists': EXC_.vexists}[name](
+            view, abspath(PyV.ps(f0)), None)
+        res = v.t if isinstance(v, Sym) else v
+        out.append(('answers-the-virtual-view-at-the-sanitized-path', Implies(
+            J.is_str(f0), res == PyV.PBool(want)), ['C04', 'C05', 'C01']))
+    return out
 
 
 for _nm, _args in [('read_text', ['filename', 'file_comparison']),
